@@ -26,7 +26,9 @@ Verdict(e) ==
               IN IF x = got THEN OK ELSE V("check-decode", [x EXCEPT !.payload = Cut(@)], [got EXCEPT !.payload = Cut(@)])
     [] e.op = "Bech32Encode" ->
          LET x == Bech32Enc(e.hrp, e.data)  got == [ok |-> e.ok, s |-> e.ret]
-         IN IF x = got THEN OK ELSE V("bech32-encode", x, got)
+         \* a result longer than 90 characters is not a bech32 string (the property quantifies within that limit):
+         \* Encode may produce it or refuse it
+         IN IF x = got \/ (x.ok /\ Len(x.s) > 90 /\ ~got.ok) THEN OK ELSE V("bech32-encode", x, got)
     [] e.op = "Bech32Decode" ->
          LET x == Bech32Dec(e.s)  got == [ok |-> e.ok, hrp |-> e.rhrp, data |-> e.rdata]
          IN IF x = got THEN OK ELSE V("bech32-decode", x, got)
